@@ -2,6 +2,7 @@ package work
 
 import (
 	"crypto/sha512"
+	"encoding/hex"
 
 	"github.com/oasisprotocol/curve25519-voi/curve"
 	"github.com/oasisprotocol/curve25519-voi/curve/scalar"
@@ -38,9 +39,31 @@ func (g *Gen) RisPoint() *curve.RistrettoPoint {
 	return &p
 }
 
-// EdKey derives an Ed25519 key pair from a drawn seed.
+// EdKey derives an Ed25519 key pair from a drawn seed.  One key in sixteen comes from a short table of
+// seeds whose public-key ENCODING lies at the edge of the encoding space (bytes 30 and 31 saturated, some
+// also with byte 0 at or above 0xed): canonicity tests walk an encoding from the top and compare with
+// p = 2^255-19, so for a uniformly drawn key everything below the first byte is dead code (2^-15 and 2^-19
+// per key).  The seeds were found by plain search over NewKeyFromSeed; the table states nothing about the
+// implementation, only which keys exist.
 func (g *Gen) EdKey() ed25519.PrivateKey {
+	if g.T.W(16) == 15 {
+		seed, _ := hex.DecodeString(edgeSeeds[g.T.W(len(edgeSeeds))])
+		return ed25519.NewKeyFromSeed(seed)
+	}
 	return ed25519.NewKeyFromSeed(g.Bytes(32))
+}
+
+// public keys: 30f9..93ff7f, 04d8..04ffff, 50c7..92ffff, a64c..60ff7f, eebb..d2ff7f, ee94..faff7f, f6bf..88ffff, faa1..d3ffff, f979..97ff7f
+var edgeSeeds = []string{
+	"76657269662073747275637475726564206b6579207365615aa9000000000000",
+	"76657269662073747275637475726564206b657920736561be92000000000000",
+	"76657269662073747275637475726564206b65792073656112fe000000000000",
+	"76657269662073747275637475726564206b65792073656134ce010000000000",
+	"76657269662073747275637475726564206b657920736561e536060000000000",
+	"76657269662073747275637475726564206b657920736561cbe90a0000000000",
+	"76657269662073747275637475726564206b657920736561f1a00e0000000000",
+	"76657269662073747275637475726564206b657920736561d0bf190000000000",
+	"76657269662073747275637475726564206b6579207365615f731a0000000000",
 }
 
 // Msg draws a message with lengths biased to SHA-512 block seams.
